@@ -35,6 +35,17 @@ Props/C20) + OBSERVED real deployment.  Three parts:
      send_qubit) issued while that peer's virtual node stays down for less /
      exactly / more than one and two retry periods (`_mem_pending_op`).
 
+(a4) in-memory, oracle only (`c20_prog.py`): PROGRAMS DURING PARTIAL BRING-UP.  The virtual nodes are started one
+     after the other by the real `start_vnode.main` (simnet's bring-up mode: attempts towards a peer that does not
+     listen yet are refused and retried by the node's own retry logic); at every instant after the last start at
+     which one or more directed connections are still missing -- all start orders, a grid of spacings and retry
+     periods -- short programs (cross-node merges whose register backs a qubit held by a third node, forwarded
+     qubits, random programs of the C01/C02 generator) run through the real PB interface while the retries are still
+     pending; operations that need a missing connection have to WAIT.  Judged after every operation and after the
+     late peers came up by the SAME oracles as C01/C02 (`vnetcase.Exec`: single-register reference incl. possible
+     outcomes, well-formedness of the object graph, population), plus: missing connections at program start as the
+     statement predicts, all connections up after the last retry period.
+
 Processes are judged over EVERY process object ever created (fake
 `multiprocessing.Process` registry in (a); `multiprocessing.active_children()`
 in (b)), not only over `Network.processes`: at most one live process per
@@ -67,6 +78,9 @@ TRUSTED = [
     "real deployment (OS processes, TCP, port release, process termination) is OBSERVED in child processes, "
     "not proved: no theorem reaches it",
     "netqasm 2.3.0 SDK + SimulaQronConnection as host side of the deployed programs",
+    "programs during partial bring-up: simnet.SimNet bring-up mode (connect attempts decided at the virtual time they "
+    "are made; virtual time passes only while an operation waits or on an explicit tick) and the executor / reference "
+    "/ well-formedness oracles of harness/vnetcase.py (the ones C01 and C02 use); oracle only, no model",
 ]
 ASSUMPTIONS = [
     "a connect attempt on localhost is either accepted (target listening) or refused; time-outs and connections "
@@ -792,6 +806,9 @@ def _shrink(replay, key, budget=400):
             left[0] -= 1
             return any(k == key for k, _ in _mem_exec(replay["n"], replay["retry"], mops, replay.get("eager", False)).viol)
         return dict(replay, ops=_ddmin(replay["ops"], fails))
+    if replay.get("kind") == "prog":
+        from . import c20_prog
+        return c20_prog.shrink_replay(replay, key[len("mem:"):] if key.startswith("mem:") else key, _ddmin)
     if replay.get("kind") == "table":
         def fails(ops):
             if left[0] <= 0:
@@ -1086,7 +1103,10 @@ def run(ctx):
                 "state (after every process body and every QNodeOS decision); long spacings: a QNodeOS refused 21..3x(10 s / "
                 "retry time) times before its virtual node listens; (a2) process table: random start/stop/crash histories n=1..5 "
                 "incl. start on a running network; (a3) get_connection / send_qubit issued while the peer stays down for "
-                "0..3 retry periods; (b) real deployment in child processes incl. start(wait); start; stop and start; "
+                "0..3 retry periods; (a4) programs during partial bring-up: 3 nodes (thorough: also 4), every start order x "
+                "every reachable non-empty set of still-missing directed connections x spacings/retry periods {1,4,8,16}/16 s, "
+                "directed (third-party merge, forward, pull-back) and random programs through the real PB interface, judged "
+                "after every operation by the C01/C02 oracles; (b) real deployment in child processes incl. start(wait); start; stop and start; "
                 "start; stop. Processes judged over every process object ever created. non-trivial = n>=2; "
                 "distinct by (n, retry, policy, op list) resp. deployment spec")
     violations = {}      # key -> (what, replay) smallest first
@@ -1215,6 +1235,9 @@ def run(ctx):
     for key, (what, replay, _sz) in sorted(violations.items(), key=lambda kv: kv[1][2]):
         if not ctx.replay:
             replay = _shrink(replay, key)
+            if replay.get("kind") == "prog" and replay.get("what"):      # say it on the minimal program
+                what = "program during partial bring-up (%d nodes): %s: %s" % (
+                    replay["prog"]["nodes"], replay["text"], replay["what"])
         res.violation(key, what, replay)
     return res
 
@@ -1257,6 +1280,9 @@ def _run_mem(ctx, res, rng, add_viol, batches, extra):
             res.case({"replay": inp})
             for key, what in _mem_pending_op(inp["n"], inp["retry"], inp["op"], inp["off"], inp["down"], inp["peer"]):
                 add_viol(key, what, inp)
+        elif inp.get("kind") == "prog":
+            from . import c20_prog
+            c20_prog.replay(res, inp, add_viol)
         return
 
     # smallest scenario first: it is the minimal replay of a start/stop/start defect
@@ -1375,6 +1401,10 @@ def _run_mem(ctx, res, rng, add_viol, batches, extra):
         batches.append((lines, outs, {"table": n, "ops": ops}, "mem"))
         if probe and len(extra) < 50:
             extra.append((probe, outs[-1], {"table": n}))
+
+    # (a4) programs during partial bring-up (last: it instruments the scratch copy for the C01/C02 oracles)
+    from . import c20_prog
+    c20_prog.run_stage(ctx, res, rng, add_viol)
 
 
 def search(ctx, res, broken):
